@@ -41,6 +41,13 @@ META = {
              "trait of a random kind for the announced name when it matches a random prefix rule, once "
              "per (instance, name); the access that triggered the announcement -- get / set / del / "
              "on_trait_change(handler, name) -- must already be governed by that instance trait). "
+             "Kinds include ReadOnly traits already defined by their declaration (ReadOnly(value) as "
+             "explicit trait, wildcard rule, add_class_trait or add_trait; a _name_default method; a "
+             "subclass giving an inherited ReadOnly a class-body value or default method), which reject "
+             "every assignment in set-before-read, constructor-keyword and read-then-set orders. Ops also "
+             "include on_trait_change(handler, name) / on_trait_change(handler, name, remove=True) "
+             "(often of the last handler) on class-governed names and on user-added instance traits, "
+             "after which the same trait must still govern. "
              "distinct_nontrivial counts distinct (op, governing kind, resolution route, number and "
              "origin of matching prefixes, root, stored-state class, outcome class) signatures of judged "
              "operations."),
@@ -56,7 +63,13 @@ META = {
                   "late_checks": 500, "late_checks_after_resolution": 300,
                   "listener_hierarchies": 600, "listener_added_traits": 6000,
                   "listener_first_get": 1400, "listener_first_set": 2700, "listener_first_del": 1100,
-                  "listener_first_hook": 900, "hook_ops": 2600, "dynamic_listeners": 800},
+                  "listener_first_hook": 900, "hook_ops": 2600, "dynamic_listeners": 800,
+                  "readonly_declared_ops": 30000, "readonly_declared_set_before_read": 3000,
+                  "readonly_declared_wildcard": 10000, "readonly_declared_instance": 15000,
+                  "readonly_declared_method": 1400, "readonly_declared_classvalue": 1100,
+                  "readonly_declared_defmethod": 1000, "constructor_kw_checks": 2800,
+                  "constructor_kw_readonly_declared": 130, "unhook_ops": 5700,
+                  "unhook_last_handler": 5600, "unhook_last_handler_on_instance_trait": 1400},
         "thorough": {"evaluations": 9000000, "hierarchies": 90000, "multi_prefix_ops": 1080000,
                   "cross_class_prefix_ops": 720000, "cross_instance_ops": 3240000,
                   "instance_trait_ops": 1440000, "restored_after_remove_ops": 360000,
@@ -69,7 +82,13 @@ META = {
                   "listener_hierarchies": 18000, "listener_added_traits": 180000,
                   "listener_first_get": 42000, "listener_first_set": 81000,
                   "listener_first_del": 33000, "listener_first_hook": 27000, "hook_ops": 78000,
-                  "dynamic_listeners": 24000},
+                  "dynamic_listeners": 24000,
+                  "readonly_declared_ops": 900000, "readonly_declared_set_before_read": 90000,
+                  "readonly_declared_wildcard": 300000, "readonly_declared_instance": 450000,
+                  "readonly_declared_method": 42000, "readonly_declared_classvalue": 33000,
+                  "readonly_declared_defmethod": 30000, "constructor_kw_checks": 84000,
+                  "constructor_kw_readonly_declared": 3900, "unhook_ops": 171000,
+                  "unhook_last_handler": 168000, "unhook_last_handler_on_instance_trait": 42000},
     },
     "assumptions": [
         "the manual's wildcard rules, HasStrictTraits/HasPrivateTraits definitions and the trait "
@@ -94,9 +113,17 @@ META = {
 # --------------------------------------------------------------------------
 
 VALUE_KINDS = ("Int", "Str", "Bool", "Float", "Any")
-ALL_KINDS = VALUE_KINDS + ("ReadOnly", "Constant", "Event", "Disallow", "Python")
+# "ReadOnlyD": a ReadOnly already defined by its declaration -- ReadOnly(value),
+# a `_name_default` method, or a subclass giving an inherited ReadOnly a
+# class-body value.  The declaration is its one defining assignment: every
+# assignment is rejected, whether or not the attribute was read before.
+# kind = ("ReadOnlyD", value, flavour), flavour in arg / method / classvalue /
+# defmethod (the last two only in a subclass of the class declaring the trait).
+ALL_KINDS = VALUE_KINDS + ("ReadOnly", "ReadOnlyD", "Constant", "Event", "Disallow", "Python")
 DEFAULTS = {"Int": 0, "Str": "", "Bool": False, "Float": 0.0, "Any": None}
 CONSTANT_VALUES = (5, "k", 2.5)
+READONLY_DEFAULTS = (5, "dflt", 2.5, None)
+FIXED_KINDS = ("ReadOnlyD", "Constant")      # read the declared value, reject every write
 
 
 def mk_trait(kind):
@@ -114,6 +141,8 @@ def mk_trait(kind):
         return Any
     if k == "ReadOnly":
         return ReadOnly
+    if k == "ReadOnlyD":
+        return ReadOnly(kind[1]) if kind[2] == "arg" else ReadOnly
     if k == "Constant":
         return Constant(kind[1])
     if k == "Event":
@@ -259,23 +288,33 @@ def _resolve_class(m, name):
 # generation (pure data)
 # --------------------------------------------------------------------------
 
-def gen_kind(rng, wildcard):
+def gen_kind(rng, wildcard, class_body=False):
     if wildcard:
         k = rng.choice(("Int", "Str", "Bool", "Float", "Any", "Disallow", "Python",
-                        "Int", "Str", "Bool", "Float", "ReadOnly", "Event", "Constant"))
+                        "Int", "Str", "Bool", "Float", "ReadOnly", "Event", "Constant", "ReadOnlyD"))
     else:
         k = rng.choice(("Int", "Str", "Bool", "Float", "Any", "ReadOnly", "ReadOnly", "Constant",
-                        "Event", "Disallow", "Python"))
+                        "Event", "Disallow", "Python", "ReadOnlyD", "ReadOnlyD"))
+    if k == "ReadOnlyD":
+        flavour = rng.choice(("arg", "method")) if class_body and not wildcard else "arg"
+        return (k, rng.choice(READONLY_DEFAULTS), flavour)
     return (k, rng.choice(CONSTANT_VALUES) if k == "Constant" else None)
 
 
-def gen_decl(rng):
+def gen_decl(rng, parent=None):
     decl = {}
     for _ in range(rng.randint(1, 5)):
         if rng.random() < 0.55:
             decl[rng.choice(PREFIXES) + "_"] = gen_kind(rng, True)
         else:
-            decl[rng.choice(EXPLICIT)] = gen_kind(rng, False)
+            decl[rng.choice(EXPLICIT)] = gen_kind(rng, False, class_body=True)
+    if parent is not None:
+        # a subclass defining an inherited ReadOnly: class-body value or default method
+        for name in sorted(parent.explicit):
+            if name not in decl and parent.explicit[name][0][0] in ("ReadOnly", "ReadOnlyD") \
+                    and rng.random() < 0.5:
+                decl[name] = ("ReadOnlyD", rng.choice((5, "fixed", 2.5)),
+                              rng.choice(("classvalue", "defmethod")))
     return sorted(decl.items())
 
 
@@ -292,7 +331,7 @@ def gen_setup(rng):
             parent = i - 1
         else:
             parent = rng.randrange(i)
-        decl = gen_decl(rng)
+        decl = gen_decl(rng, None if parent is None else models[parent])
         steps.append(("class", i, parent, decl))
         model_new_class(models, root, i, parent, decl)
         if rng.random() < 0.4:
@@ -379,6 +418,20 @@ def gen_listeners(rng, ncls):
             "dynamic_rules": [rule() for _ in range(3)]}
 
 
+def _mangled(class_name, attr):
+    """The name a class *statement* would give to attribute `attr` (Python's
+    private-name mangling; type() does not apply it by itself)."""
+    if attr.startswith("__") and not attr.endswith("__"):
+        return "_%s%s" % (class_name.lstrip("_"), attr)
+    return attr
+
+
+def _default_method(value):
+    def _default(self):
+        return value
+    return _default
+
+
 def build(root, steps, tag, hub=None, listeners=None):
     """Realise the steps with the metaclass; returns the list of classes."""
     classes = []
@@ -386,11 +439,21 @@ def build(root, steps, tag, hub=None, listeners=None):
         if st[0] == "class":
             _, idx, parent, decl = st
             base = ROOTS[root] if parent is None else classes[parent]
-            ns = {name: mk_trait(kind) for name, kind in decl}
-            ns["__module__"] = __name__
+            ns = {"__module__": __name__}
+            cname = "K%s_%d" % (tag, idx)
+            for name, kind in decl:
+                flavour = kind[2] if kind[0] == "ReadOnlyD" else None
+                if flavour == "classvalue":
+                    ns[name] = kind[1]
+                elif flavour == "defmethod":
+                    ns[_mangled(cname, "_%s_default" % name)] = _default_method(kind[1])
+                else:
+                    ns[name] = mk_trait(kind)
+                    if flavour == "method":
+                        ns[_mangled(cname, "_%s_default" % name)] = _default_method(kind[1])
             if listeners is not None and idx in listeners["static"]:
                 ns["_trait_added_changed"] = hub.static(*listeners["static"][idx])
-            classes.append(type(base)("K%s_%d" % (tag, idx), (base,), ns))
+            classes.append(type(base)(cname, (base,), ns))
         else:
             _, idx, name, kind = st
             classes[idx].add_class_trait(name, mk_trait(kind))
@@ -418,7 +481,7 @@ def name_pool(models):
 
 class Inst:
     __slots__ = ("serial", "cls", "obj", "itraits", "st", "touched", "removed", "hooked",
-                 "listener_done", "dyn")
+                 "listener_done", "dyn", "handlers")
 
     def __init__(self, serial, cls, obj):
         self.serial = serial
@@ -432,6 +495,7 @@ class Inst:
                                     # trait of its own for them)
         self.listener_done = set()  # names the trait_added listener already handled
         self.dyn = None             # dynamic trait_added listener (kept alive)
+        self.handlers = {}          # name -> handlers registered with on_trait_change
 
     def state(self, name):
         s = self.st.get(name)
@@ -553,6 +617,13 @@ class History:
             ctx.count("event_ops")
         elif k == "Constant":
             ctx.count("constant_ops")
+        elif k == "ReadOnlyD":
+            ctx.count("readonly_declared_ops")
+            ctx.count("readonly_declared_%s" % kind[2])
+            if how.startswith("prefix"):
+                ctx.count("readonly_declared_wildcard")
+            elif how == "instance":
+                ctx.count("readonly_declared_instance")
         users = self.seen.setdefault(name, set())
         if any(s != inst.serial for (_, s) in users):
             ctx.count("cross_instance_ops")
@@ -581,7 +652,7 @@ class History:
                 s[0] = "yes"
             s[1] = out[1]
         elif out[0] == "AE":
-            if k in VALUE_KINDS or k in ("ReadOnly", "Constant"):
+            if k in VALUE_KINDS or k in ("ReadOnly", "ReadOnlyD", "Constant"):
                 self.fail("get/%s/unreadable" % k,
                           "%s-governed name %r raised AttributeError on read" % (k, name),
                           name=name, kind=kind)
@@ -624,7 +695,7 @@ class History:
             exp = ("ok", DEFAULTS[k])
         elif k == "ReadOnly":
             exp = ("ok", Undefined)
-        elif k == "Constant":
+        elif k in FIXED_KINDS:
             exp = ("ok", kind[1])
         else:
             exp = ("AE", None)          # Event, Disallow, unset Python attribute
@@ -654,6 +725,7 @@ class History:
             return
         kind, route = self.governing(inst, name)
         s = self.settle(inst, name, kind)
+        first_mention = name not in inst.touched
         inst.touched.add(name)
         out, fired = self.access(inst, name, setattr, v)
         self.log.append(("set", inst.serial, name, v, out[0]))
@@ -690,8 +762,10 @@ class History:
                     if has == "yes":
                         self.ctx.count("readonly_rejections")
                     s[0] = "yes"
-        elif k in ("Constant", "Disallow"):
+        elif k in ("Constant", "Disallow", "ReadOnlyD"):
             exp = "TE"
+            if k == "ReadOnlyD" and first_mention:
+                self.ctx.count("readonly_declared_set_before_read")
         elif k == "Event":
             exp = "ok"
         else:
@@ -744,7 +818,7 @@ class History:
             allowed = ("ok",)
         elif k == "Python":
             allowed = ("ok",) if has == "yes" else ("AE",)
-        elif k in ("ReadOnly", "Constant"):
+        elif k in ("ReadOnly", "ReadOnlyD", "Constant"):
             allowed = ("TE",)
         else:                       # Disallow: rejected, class of rejection not specified
             allowed = ("TE", "AE")
@@ -784,6 +858,8 @@ class History:
             pass
         n0 = len(self.listener_log)
         out = attempt(inst.obj.on_trait_change, handler, name)
+        if out[0] == "ok":
+            inst.handlers.setdefault(name, []).append(handler)
         fired = (inst.serial, name) in self.listener_log[n0:]
         self.log.append(("on_trait_change", inst.serial, name, out[0], fired))
         inst.hooked.add(name)
@@ -797,6 +873,77 @@ class History:
         if fired:
             self.first_access("hook", inst, name)
         self.do_fp(inst, name, values, readback)
+
+    def do_unhook(self, inst, name, values):
+        """on_trait_change(handler, name, remove=True) of a registered handler
+        (often the last one).  Only remove_trait may take an instance trait
+        away, so whatever governed the name before still does: a read and a
+        fingerprint follow, judged as usual."""
+        hs = inst.handlers.get(name)
+        handler = hs.pop()
+        if not hs:
+            del inst.handlers[name]
+        out = attempt(inst.obj.on_trait_change, handler, name, True)
+        kind, route = self.governing(inst, name)
+        self.log.append(("on_trait_change-remove", inst.serial, name, out[0], len(hs)))
+        self.ctx.count("unhook_ops")
+        if not hs:
+            self.ctx.count("unhook_last_handler")
+            if route[0] == "instance":
+                self.ctx.count("unhook_last_handler_on_instance_trait")
+        self.ctx.sig("unhook", kind[0], route[0], route[1] if route[0] == "instance" else None,
+                     not hs, out[0])
+        if out[0] != "ok":
+            self.fail("on_trait_change-remove/raised-%s" % out[0],
+                      "on_trait_change(handler, %r, remove=True) raised %s" % (name, out[0]), name=name)
+        self.key_override = "on_trait_change-remove/governing-trait-changed"
+        self.do_get(inst, name, tag="read-after-unhook")
+        self.do_fp(inst, name, values, True)
+
+    def do_new_kw(self, ci, name, v):
+        """Constructor keyword: an assignment on an object on which the name
+        was never read.  Returns the new Inst, or None when the constructor
+        (rightly) refused."""
+        kind, route = _resolve_class(self.models[ci], name)
+        k = kind[0]
+        vclass = type(v).__name__
+        out = attempt(lambda: self.classes[ci](**{name: v}))
+        self.log.append(("new-kw", ci, name, v, out[0]))
+        if k in VALUE_KINDS or k == "Python":
+            ok, stored = accepts(k, v)
+            exp = "ok" if ok else "TE"
+        elif k == "ReadOnly":
+            ok, stored, exp = True, v, "ok"
+        elif k == "Event":
+            ok, stored, exp = False, None, "ok"
+        else:                           # Constant, ReadOnlyD, Disallow
+            ok, stored, exp = False, None, "TE"
+        self.ctx.ev()
+        self.ctx.count("constructor_kw_checks")
+        if k == "ReadOnlyD":
+            self.ctx.count("constructor_kw_readonly_declared")
+        self.ctx.sig("new-kw", k, route[0], self.root, vclass, out[0])
+        if out[0] != exp:
+            if out[0].startswith("EXC-"):
+                c = "unexpected-" + out[0]
+            elif exp == "TE":
+                c = "accepted-%s" % vclass if out[0] == "ok" else "wrong-exception-" + out[0]
+            else:
+                c = "rejected-%s-%s" % (vclass, out[0])
+            self.fail("new-kw/%s/%s" % (k, c),
+                      "constructor keyword %s=%r (governed by %s via %s) gave %s, expected %s"
+                      % (name, v, kind, route, out[0], exp),
+                      name=name, kind=kind, route=route, cls=ci, value=v, expected=exp, got=out[0])
+        if out[0] != "ok":
+            return None
+        inst = Inst(len(self.insts), ci, out[1])
+        self.insts.append(inst)
+        self.by_id[id(inst.obj)] = inst
+        inst.touched.add(name)
+        if ok:
+            st = inst.state(name)
+            st[0], st[1] = "yes", stored
+        return inst
 
     def do_remove(self, inst, name, read_now=True):
         had = name in inst.itraits
@@ -886,11 +1033,17 @@ def run_history(ctx, case, rng, stratum, lrng=None):
         pool = sorted(set(pool) | extra)
     hot = rng.sample(pool, min(len(pool), 8))     # names revisited often: cache reuse
     nsteps = 40
-    weights = {"fp": 3, "set": 3, "get": 3, "del": 1.5, "add": 1.5, "remove": 1.5, "new": 0.4}
+    weights = {"fp": 3, "set": 3, "get": 3, "del": 1.5, "add": 1.5, "remove": 1.5, "new": 0.8,
+               "hook": 1.0, "unhook": 1.0}
     if stratum == "noop":
         weights["remove"] = 4
     if stratum == "listener":
-        weights.update({"del": 2.5, "hook": 2.0, "add": 1.0})
+        weights.update({"del": 2.5, "hook": 2.0, "unhook": 1.5, "add": 1.0})
+
+    def fp_values():
+        order = list(VCLASSES)
+        rng.shuffle(order)
+        return [value_for(rng, c) for c in order]
     opnames = list(weights)
     opw = [weights[o] for o in opnames]
     try:
@@ -908,10 +1061,22 @@ def run_history(ctx, case, rng, stratum, lrng=None):
             ctx.count("history_ops")
             if op == "new":
                 if len(H.insts) < 10:
-                    ni = new_instance(rng.randrange(len(classes)))
+                    ci = rng.randrange(len(classes))
+                    if name not in DUNDER and rng.random() < 0.6:
+                        # constructor keyword: assignment before any read
+                        ni = H.do_new_kw(ci, name, value_for(rng, rng.choice(VCLASSES)))
+                        if ni is not None and rng.random() < 0.5:
+                            H.do_fp(ni, name, fp_values(), rng.random() < 0.6)
+                        continue
+                    ni = new_instance(ci)
                     H.log.append(("new", ni.serial, ni.cls))
                     continue
                 op = "get"
+            if op == "unhook":
+                if inst.handlers:
+                    H.do_unhook(inst, rng.choice(sorted(inst.handlers)), fp_values())
+                    continue
+                op = "hook"
             if op == "get":
                 H.do_get(inst, name)
             elif op == "set":
@@ -935,12 +1100,15 @@ def run_history(ctx, case, rng, stratum, lrng=None):
                     rng.shuffle(order)
                     H.do_fp(inst, name, [value_for(rng, c) for c in order], rng.random() < 0.6)
             elif op == "hook":
+                if inst.itraits and rng.random() < 0.5:
+                    name = rng.choice(sorted(inst.itraits))     # a user-added instance trait
                 if name in DUNDER or name.endswith("_"):
                     H.do_get(inst, name)
                     continue
-                order = list(VCLASSES)
-                rng.shuffle(order)
-                H.do_hook(inst, name, [value_for(rng, c) for c in order], rng.random() < 0.6)
+                H.do_hook(inst, name, fp_values(), rng.random() < 0.6)
+                if rng.random() < 0.35 and name in inst.handlers:
+                    H.key_override = None
+                    H.do_unhook(inst, name, fp_values())
             elif op == "remove":
                 if inst.itraits and rng.random() < 0.7:
                     name = rng.choice(sorted(inst.itraits))
